@@ -69,7 +69,7 @@ Next == \E c \in Calls(buf) :
 
 Spec == Init /\ [][Next]_vars
 
-Refines  == \A c \in Calls(buf) : ExplainsDecode(buf, off, mode, c.op, c, Outcome(buf, off, mode, c))
+Refines  == \A c \in Calls(buf) : ExplainsDecode(buf, off, mode, c.op, c @@ [lt |-> lt], Outcome(buf, off, mode, c))
 InBounds == off \in 0..Len(buf)
 
 (***************************************************************************)
@@ -82,7 +82,7 @@ SkipExact ==
   (f.ok /\ f.canon /\ f.fn >= 1) =>
      LET t == RefTag(buf, off) IN
      /\ t.class = "must" /\ t.val = <<f.fn, f.wt>>
-     /\ LET s == RefSkip(buf, off + t.len, mode, f.fn, f.wt) IN
+     /\ LET s == RefSkip(buf, off + t.len, mode, f.fn, f.wt, NoTag) IN
         /\ s.class = "must"
         /\ s.val = Slice(buf, f.start, f.end)
         /\ off + t.len + s.len = f.end
